@@ -165,6 +165,7 @@ def grid(ctx):
             out += [(c, (0, vb, b"k", v, 0, n, None)) for vb in range(5) for n in (None, True, False)]
             out.append((c, (1, [(b"a", v), (b"b", b"w")], 60, None, 3)))
             out.append((c, (2, b"k", v, b"9", 0, False, None)))
+            out.append((c, (2, b"k", v, b"9", 5, True, 1)))
         for e in EXPIRES:
             out += [(c, (0, 0, b"k", b"v", e, None, None)), (c, (13, b"k", e, None)), (c, (5, b"k", e, None)), (c, (6, b"k", e, None, None)),
                     (c, (1, [(b"a", b"1")], e, None, None)), (c, (2, b"k", b"v", b"1", e, False, None))]
@@ -179,7 +180,7 @@ def grid(ctx):
         k = rng.choice(KEYS) if rng.random() < 0.5 else bytes(rng.randrange(256) for _ in range(rng.randrange(0, 6)))
         code = rng.choice([0, 1, 2, 3, 4, 5, 6, 7, 8, 9, 10, 11, 12, 13])
         v, e, f, n = rng.choice(VALUES), rng.choice(EXPIRES[:5]), rng.choice(FLAGS[:4]), rng.choice([None, True, False])
-        op = {0: (0, rng.randrange(5), k, v, e, n, f), 1: (1, [(b"a", v), (k, b"2")], e, n, f), 2: (2, k, v, rng.choice(CASES[:3]), e, False, f),
+        op = {0: (0, rng.randrange(5), k, v, e, n, f), 1: (1, [(b"a", v), (k, b"2")], e, n, f), 2: (2, k, v, rng.choice(CASES[:3]), e, rng.choice([False, True]), f),
               3: (3, k, None), 4: (4, k, None, None), 5: (5, k, e, None), 6: (6, k, e, None, None), 7: (7, False, [k, b"b"]), 8: (8, False, [b"a", k]),
               9: (9, k, n), 10: (10, False, [k, b"z"], n), 11: (11, k, rng.choice(DELTAS[:3]), False), 12: (12, k, rng.choice(DELTAS[:3]), False),
               13: (13, k, e, n)}[code]
